@@ -9,7 +9,7 @@ import (
 
 // wrapper constructors: functions that build a buffering writer around their first argument.
 var bufferingWrappers = map[string]string{
-	"text/tabwriter.NewWriter": "text/tabwriter holds every row of >= 2 cells until Flush, so writes to it cannot fail before Flush",
+	"text/tabwriter.NewWriter": "text/tabwriter holds every line of >= 2 cells until Flush, so writes to it that cannot complete a single-cell line cannot fail before Flush (line shapes decided by a dataflow over the writes)",
 	"bufio.NewWriter":          "bufio.Writer reports a failed underlying write again from Flush",
 	"bufio.NewWriterSize":      "bufio.Writer reports a failed underlying write again from Flush",
 }
@@ -412,6 +412,32 @@ func ruleErrChk(c *Ctx, r *RuleResult, fnName, sinkParam string) {
 		r.inst("%s: wrapper %s flushed on every success path", fnName, c.srcAt(wc.Pos()))
 		r.oblig(okFlush)
 	}
+	// text/tabwriter buffers only lines of two or more cells: a write that can complete a
+	// single-cell line (or emits a form feed) reaches the output at once (p_c20_tab.go)
+	earlyFlush := map[*ssa.Call]string{}
+	for w := range wrappers {
+		wc := w.(*ssa.Call)
+		if f := wc.Call.StaticCallee(); f == nil || f.String() != "text/tabwriter.NewWriter" {
+			continue
+		}
+		fl, assumed := tabFlushers(c, fn, w)
+		if assumed > 0 {
+			r.note("%s: text written to the tabwriter from non-constant, non-numeric operands is assumed to contain no tab and no line break", fnName)
+		}
+		for call, why := range fl {
+			if call.Parent() == fn {
+				earlyFlush[call] = why
+				continue
+			}
+			// inside a helper that was handed the wrapper: the write's error must at least be looked at
+			_, has, used := errorResult(call)
+			r.inst("%s: helper %s makes a tabwriter write that reaches the output at once", fnName, c.short(call.Parent()))
+			r.oblig(has && used)
+			if !(has && used) {
+				r.find(fnName+":"+c.short(call.Parent())+":"+instrDesc(c, call), c.instrPos(call), "%s (called from %s with the tabwriter) discards the error of %s, but %s: a failed write there is reported as success", c.short(call.Parent()), fnName, instrDesc(c, call), why)
+			}
+		}
+	}
 	n := 0
 	for _, b := range fn.Blocks {
 		for _, in := range b.Instrs {
@@ -469,6 +495,10 @@ func ruleErrChk(c *Ctx, r *RuleResult, fnName, sinkParam string) {
 				continue
 			}
 			desc := instrDesc(c, call)
+			if why, early := earlyFlush[call]; early && kind == "buffered" {
+				kind = "tabwriter (written out at once, so in effect direct)"
+				r.note("%s: %s is not exempt: %s", fnName, desc, why)
+			}
 			if kind == "buffered" {
 				r.inst("%s: buffered %s (exempt)", fnName, desc)
 				continue
@@ -578,7 +608,7 @@ func init() {
 		id:          "C20",
 		explanation: "Decides the fault clause for every failure position and the domain of the weight calls: ERRCHK (in tsp.LIB every call that writes to w directly, and every Flush of a buffering wrapper built around w, has its error result examined by an `!= nil` test; on the failure edge every reachable return carries that error (or a wrap of it), and no return is reachable before the test; writes into the text/tabwriter wrapper are exempt because tabwriter holds rows until Flush), DOMAIN (E-PROVE shows 0 <= j < i < n at every call weights(i, j), and weights is used in no other way). Does not decide the literal header text or the row layout.",
 		notDecided:  []string{"the exact TSPLIB header text, DIMENSION value and row layout (pinned by the golden-file test)", "that a partial write with a nil error from a non-conforming io.Writer is detected"},
-		assumptions: []string{"text/tabwriter buffers cells until Flush and returns the underlying write error from Flush", "io.WriteString / fmt.Fprintf return a non-nil error whenever the underlying Write does"},
+		assumptions: []string{"text/tabwriter buffers lines of two or more cells until Flush (a single-cell line and a form feed are written out at once: such writes are held to the rule for direct writes) and returns the underlying write error from Flush", "text formatted from non-constant, non-numeric operands contains no tab and no line break", "io.WriteString / fmt.Fprintf return a non-nil error whenever the underlying Write does"},
 		run: func(c *Ctx, tier string) []*RuleResult {
 			e := &RuleResult{Rule: "ERRCHK", Doc: "every direct write to w and every Flush of a wrapper of w has its error tested and propagated on the failure edge", MinInst: 1}
 			ruleErrChk(c, e, "tsp.LIB", "w")
@@ -588,7 +618,7 @@ func init() {
 		},
 		controls: func(ctl *Ctx) []*RuleResult {
 			var out []*RuleResult
-			for _, f := range []string{"errctl.BadFlushDropped", "errctl.BadErrSwallowed", "errctl.BadCheckedLate", "errctl.BadDeferredFlush", "errctl.BadNeverFlushed", "errctl.BadStickyWriter", "errctl.BadStickyIgnored"} {
+			for _, f := range []string{"errctl.BadFlushDropped", "errctl.BadErrSwallowed", "errctl.BadCheckedLate", "errctl.BadDeferredFlush", "errctl.BadNeverFlushed", "errctl.BadStickyWriter", "errctl.BadStickyIgnored", "errctl.BadSingleCellLine", "errctl.BadSingleCellFirstRow"} {
 				e := &RuleResult{Rule: "ERRCHK"}
 				ruleErrChk(ctl, e, f, "w")
 				out = append(out, e)
@@ -597,6 +627,8 @@ func init() {
 			ruleErrChk(ctl, g, "errctl.GoodWrite", "w")
 			ruleErrChk(ctl, g, "errctl.GoodWithDefer", "w")
 			ruleErrChk(ctl, g, "errctl.GoodStickyWriter", "w")
+			ruleErrChk(ctl, g, "errctl.GoodRowsThroughHelper", "w")
+			ruleErrChk(ctl, g, "errctl.GoodSingleCellChecked", "w")
 			out[0].Findings = append(out[0].Findings, g.Findings...)
 			d := ruleDomain(ctl, "errctl.BadDomain", "weights", "n")
 			d2 := ruleDomain(ctl, "errctl.GoodDomain", "weights", "n")
